@@ -94,7 +94,7 @@ Definition dy_bits (f : dy) : N :=
     biased * two52 + (m - two52).
 
 (* incrementCurrentInterval *)
-Definition incr (mx : N) (mult : dy) (cur : N) : N :=
+Definition grow (mx : N) (mult : dy) (cur : N) : N :=
   if ge_dy cur (fdiv mx mult) then mx else trunc (fmul cur mult).
 
 (* getRandomValueFromInterval for a factor rf in (0, 1]:  delta = rf * cur, the result is
@@ -178,7 +178,7 @@ Definition bo_next_v (p : params) (now : N) (s : bstate) (v : N) : option N * bs
   match p_kind p with
   | KConst => (Some (p_cint p), s)
   | KExpo => (if stops p now s v then None else Some v,
-              {| b_cur := incr (p_max p) (p_mult p) (b_cur s); b_start := b_start s |})
+              {| b_cur := grow (p_max p) (p_mult p) (b_cur s); b_start := b_start s |})
   end.
 
 (* randomization factor 0: the value is the current interval *)
@@ -231,7 +231,7 @@ Fixpoint next_n (p : params) (s : bstate) (nows : list N) : list (option N) :=
 Fixpoint iter_script (mx : N) (mult : dy) (cur : N) (n : nat) : list N :=
   match n with
   | O => []
-  | S n' => cur :: iter_script mx mult (incr mx mult cur) n'
+  | S n' => cur :: iter_script mx mult (grow mx mult cur) n'
   end.
 
 Definition bo_script_ns (p : params) (n : nat) : list N :=
